@@ -64,10 +64,31 @@ def make_params(W, dw, poly, init, refin, refout, xorout):
     return p
 
 
+def resolve(name):
+    """A catalogue entry by name, or 'custom:W:poly:init:refin:refout:xor' (arbitrary valid parameter sets)."""
+    if name.startswith("custom:"):
+        W, poly, init, refin, refout, xo = name[7:].split(":")
+        return Algorithm(crc_width=int(W), polynomial=int(poly, 0), initial_crc=int(init, 0), reflect_input=refin == "1", reflect_output=refout == "1", xor_output=int(xo, 0))
+    return getattr(catalog, name)
+
+
+def custom_entries(r, n):
+    out = []
+    for k in range(n):
+        W = [3, 5, 8, 4, 7, 6][k % 6]
+        poly = r.randrange(1, 1 << W) | 1
+        init = r.randrange(0, 1 << W)
+        refin, refout = [(False, False), (True, True), (True, False), (False, True)][k % 4]
+        xo = r.choice([1, 1 << (W - 1), (1 << (W - 1)) | 2 if W > 2 else 1, r.randrange(0, 1 << W)])      # mostly not bit-palindromic
+        name = f"custom:{W}:{poly:#x}:{init:#x}:{int(refin)}:{int(refout)}:{xo:#x}"
+        out.append((name, resolve(name)))
+    return out
+
+
 def all_entries():
     out = []
     for name in sorted(dir(catalog)):
-        a = getattr(catalog, name)
+        a = resolve(name)
         if isinstance(a, Algorithm):
             out.append((name, a))
     return out
@@ -123,10 +144,10 @@ def sw_symbolic(job):
 def entry_obligations(job):
     """One catalogue entry: check value, software vs Williams on symbolic data, hardware step, output, match."""
     name, dws = job["name"], job["dws"]
-    a = getattr(catalog, name)
+    a = resolve(name)
     W = a.crc_width
     out = []
-    base = {"program": f"catalog.{name} (width {W})", "nontrivial": True}
+    base = {"program": (f"catalog.{name} (width {W})" if not name.startswith("custom:") else f"Algorithm({name[7:]})"), "nontrivial": True}
     # published check value (translator validation, concrete)
     got = a(8).compute(b"123456789")
     chk = job.get("check")
@@ -233,8 +254,10 @@ def hw_obligations(name, a, dw, base):
             src = a.initial_crc if st["start"] else st["crc_reg"]
             w1 = williams_word(src, st["data"], W, dw, a.polynomial, a.reflect_input) if st["valid"] else src
             wo = williams_out(st["crc_reg"], W, a.reflect_output, a.xor_output)
-            if (kind == "hardware-step" and real["crc_reg_after"] != w1) or (kind == "hardware-output" and real["crc"] != wo):
-                r.update(status=VIOLATION, detail=f"Processor(catalog.{name}({dw})) {st}: simulator {real}, model next={w1:#x} out={wo:#x}",
+            wm = 1 if (reflect(st["crc_reg"], W) if a.reflect_output else st["crc_reg"]) == a(dw).residue() else 0
+            if (kind == "hardware-step" and real["crc_reg_after"] != w1) or (kind == "hardware-output" and real["crc"] != wo) or \
+                    (kind == "hardware-match-comparator" and real["match_detected"] != wm):
+                r.update(status=VIOLATION, detail=f"Processor(catalog.{name}({dw})) {st}: simulator {real}, model next={w1:#x} out={wo:#x} match={wm}",
                          signature={"kind": kind, "entry": name}, replay={"what": "hw", "name": name, "dw": dw, "state": st})
             else:
                 r.update(status=UNREPRODUCED, detail=f"did not reproduce: {st} -> {real}")
@@ -308,7 +331,7 @@ def match_obligations(name, a, dw, base):
 # ------------------------------------------------------------------------- concrete replays
 def hw_concrete(name, dw, st):
     from amaranth.sim import Simulator, Period
-    a = getattr(catalog, name)
+    a = resolve(name)
     with symsim.real_states():
         proc = Processor(a(dw))
         sim = Simulator(proc)
@@ -323,6 +346,7 @@ def hw_concrete(name, dw, st):
             ctx.set(proc.valid, st["valid"])
             ctx.set(proc.start, st["start"])
             out["crc"] = ctx.get(proc.crc)
+            out["match_detected"] = ctx.get(proc.match_detected)
             await ctx.tick()
             out["crc_reg_after"] = ctx.get(reg)
         sim.add_testbench(tb)
@@ -333,7 +357,7 @@ def hw_concrete(name, dw, st):
 def match_concrete_state(name, dw, reg, other):
     """Load register value `reg`, feed a trailer, read match_detected on the real simulator."""
     from amaranth.sim import Simulator, Period
-    a = getattr(catalog, name)
+    a = resolve(name)
     W = a.crc_width
     xor_reg = reflect(a.xor_output, W) if a.reflect_output else a.xor_output
     own = trailer_words(reg ^ xor_reg, W, dw, a.reflect_input)
@@ -360,7 +384,7 @@ def match_concrete_state(name, dw, reg, other):
 
 def match_concrete(name, dw, msg, other):
     from amaranth.sim import Simulator, Period
-    a = getattr(catalog, name)
+    a = resolve(name)
     W = a.crc_width
     reg = a.initial_crc
     for w in msg:
@@ -444,10 +468,13 @@ def main(tier, seed):
         sys_path_checks = {}
     r = random.Random(seed)
     chosen = entries if tier != "quick" else r.sample(entries, 18)
+    chosen = list(chosen) + custom_entries(r, 8 if tier == "quick" else 80)
     for name, a in chosen:
         dws = (1, 4, 8, 16) if tier != "quick" else (8, r.choice([1, 4, 16]))
         # z3 does not finish the XOR-network equivalence for 16-bit words on registers wider than 16 bits
-        dws = tuple(d for d in dws if d < 16 or a.crc_width <= 16)
+        dws = tuple(d for d in dws if d < 16 or a.crc_width <= (8 if tier == "quick" else 16))
+        if name.startswith("custom:"):
+            dws = tuple(sorted({min(d, 8) for d in dws}))
         jobs.append({"id": f"cat-{name}", "what": "entry", "name": name, "dws": dws, "check": sys_path_checks.get(name)})
     results, stats = run.run_jobs(job_fn, jobs)
     rep.add(results, stats)
